@@ -232,6 +232,10 @@ structure PixOk (c : VesaFb.Cons) (f : VesaFb.Font) (fb : Array UInt8) : Prop wh
   size : fb.size = c.height * c.pitch
   pal : c.palette.size = 256
 
+/-- the bytes-per-pixel values that `NewVesaFbConsole` computes for the five depths (regenerated
+from the compiled code) are the model's `bytesPerPixelOf` -/
+theorem bytesPerPixel_table : ∀ p ∈ Gen.C19.bytesPerPixelTable, VesaFb.bytesPerPixelOf p.1 = p.2 := by decide
+
 /-- non-vacuity: a 24×35 16-bpp framebuffer with 1 byte of row padding, a 3-row logo and an 8×16
 font (2 rows of 3 cells) is in the domain -/
 example : PixOk { bpp := 16, bytesPerPixel := 2, width := 24, height := 35, pitch := 49, offsetY := 3,
